@@ -148,6 +148,57 @@ def python_part(run, i):
         run.sample({"schema": base_text, "a_twin": S.print_schema(permuted(decls, r)), "layout": lay0[sorted(lay0, key=repr)[0]][:6]})
 
 
+def python_var_part(run, i):
+    """Python codec on twins of schemas with variable-size types (structs inside dynamic arrays,
+    optionals, strings), which the CAN-style schemas of python_part cannot contain."""
+    from fcp import serde
+
+    r = run.rng("pyvar", i)
+    decls = shapes.random_codec_schema(r, n_structs=(2, 5), prefix="W")
+    sch = S.Sch(decls)
+    text = S.print_schema(decls)
+    res = CC.parse(text)
+    if res.is_err():
+        run.violation("front end rejected the schema: %r" % (res.err(),), {"schema": text})
+        return
+    fcp0 = res.unwrap()
+    rv = run.rng("pyvarvals", i)
+    vals = {n: V.struct_values(rv, sch, n, 3) for n in sch.structs}
+    for k in range(run.pick(2, 5)):
+        twin = permuted(decls, r)
+        ttext = S.print_schema(twin)
+        res = CC.parse(ttext)
+        if res.is_err():
+            run.violation("front end rejected the permuted twin: %r" % (res.err(),), {"schema": text, "twin": ttext})
+            return
+        fcp1 = res.unwrap()
+        for name in sch.structs:
+            for v in vals[name]:
+                case = {"schema": text, "twin": ttext, "struct": name, "value": v}
+                try:
+                    b0 = bytes(serde.encode(fcp0, name, v))
+                    b1 = bytes(serde.encode(fcp1, name, v))
+                except Exception as e:
+                    run.violation("Python codec raises: %s: %s" % (type(e).__name__, e), case)
+                    return
+                if b0 != b1:
+                    run.violation("Python codec bytes change when field declarations are permuted (ids kept)", dict(case, bytes=b0, twin_bytes=b1))
+                    return
+                if b0 != ref.encode(sch, name, v):
+                    run.violation("Python codec bytes differ from the id-ordered reference", dict(case, bytes=b0))
+                    return
+                try:
+                    same = ref.same(serde.decode(fcp1, name, bytearray(b0)), serde.decode(fcp0, name, bytearray(b0)))
+                except Exception as e:
+                    run.violation("Python codec raises while decoding: %s: %s" % (type(e).__name__, e), case)
+                    return
+                if not same:
+                    run.violation("Python codec of the twin decodes the same bytes to a different value", case)
+                    return
+                run.count("python_var_twins_equal")
+    run.case(sig="pythonvar|%d" % i)
+
+
 def c_part(run, i, root):
     r = run.rng("c", i)
     decls = cansch.gen_can_schema(r, prefix="U", max_bindings=3, flat=True, buses=False, big_endian=False, mux=False, devices=True)
@@ -256,12 +307,14 @@ def run(run):
         n_py = run.pick(40, 600)
         n_c = run.pick(8, 120)
         n_cpp = run.pick(3, 24)
-        work = [("cpp", i) for i in range(n_cpp)] + [("c", i) for i in range(n_c)] + [("py", i) for i in range(n_py)]
+        work = [("cpp", i) for i in range(n_cpp)] + [("c", i) for i in range(n_c)] + [("py", i) for i in range(n_py)] + [("pyvar", i) for i in range(n_py)]
         for wi, (kind, i) in enumerate(work):
             if not run.mine(wi):
                 continue
             if kind == "py":
                 python_part(run, i)
+            elif kind == "pyvar":
+                python_var_part(run, i)
             elif kind == "c":
                 c_part(run, i, root)
             else:
@@ -271,7 +324,7 @@ def run(run):
 
 
 def conclude(run):
-    run.require("layout_twins_equal", "dbc_twins_equal", "python_twins_equal", "c_twins_equal", "cpp_twins_equal")
+    run.require("layout_twins_equal", "dbc_twins_equal", "python_twins_equal", "python_var_twins_equal", "c_twins_equal", "cpp_twins_equal")
 
 
 def replay(run, case):
